@@ -570,6 +570,16 @@ func bvbin(op string, a, b *Term) *Term {
 			}
 		}
 	}
+	// an ite with a constant branch is lifted out of non-linear operators
+	switch op {
+	case "bvmul", "bvudiv", "bvurem", "bvsdiv", "bvsrem", "bvand", "bvor", "bvshl", "bvlshr", "bvashr":
+		if a.Op == "ite" && !b.IsConst() && (a.Args[1].IsConst() || a.Args[2].IsConst()) && iteDepth(a) <= 4 {
+			return Ite(a.Args[0], bvbin(op, a.Args[1], b), bvbin(op, a.Args[2], b))
+		}
+		if b.Op == "ite" && !a.IsConst() && (b.Args[1].IsConst() || b.Args[2].IsConst()) && iteDepth(b) <= 4 {
+			return Ite(b.Args[0], bvbin(op, a, b.Args[1]), bvbin(op, a, b.Args[2]))
+		}
+	}
 	switch op {
 	case "bvadd":
 		return linear(a, 1, b, 1)
@@ -666,6 +676,22 @@ func bvcmp(op string, a, b *Term) *Term {
 	if a == b {
 		return BoolC(op == "bvule" || op == "bvsle")
 	}
+	// (x udiv y) * y <= x  holds for all bit-vectors (also for y = 0); bit-blasting it is hopeless
+	if op == "bvule" && a.Op == "bvmul" && len(a.Args) == 2 {
+		for i := 0; i < 2; i++ {
+			d, y := a.Args[i], a.Args[1-i]
+			if d.Op == "bvudiv" && d.Args[1] == y && d.Args[0] == b {
+				return True
+			}
+		}
+	}
+	// lift a top-level ite out of the comparison (lets the rules above and constant folding fire per branch)
+	if a.Op == "ite" && b.Op != "ite" && iteDepth(a) <= 6 {
+		return Ite(a.Args[0], bvcmp(op, a.Args[1], b), bvcmp(op, a.Args[2], b))
+	}
+	if b.Op == "ite" && a.Op != "ite" && iteDepth(b) <= 6 {
+		return Ite(b.Args[0], bvcmp(op, a, b.Args[1]), bvcmp(op, a, b.Args[2]))
+	}
 	if w == 64 && len(nonNeg) > 0 && (op == "bvslt" || op == "bvsle") {
 		switch op {
 		case "bvslt": // a < b
@@ -685,6 +711,19 @@ func bvcmp(op string, a, b *Term) *Term {
 		}
 	}
 	return mk(&Term{Op: op, Sort: BoolSort, Args: []*Term{a, b}})
+}
+
+func iteDepth(t *Term) int {
+	d := 0
+	for t.Op == "ite" && d < 100 {
+		d++
+		if t.Args[2].Op == "ite" {
+			t = t.Args[2]
+		} else {
+			t = t.Args[1]
+		}
+	}
+	return d
 }
 
 func ULt(a, b *Term) *Term { return bvcmp("bvult", a, b) }
